@@ -142,6 +142,10 @@ type c10Answer struct {
 	garbage bool
 	over    bool
 	silent  bool
+	// scenario messenger-frame-limit (c10_frame.go): a complete frame sized around the transport limit
+	body  int    // length of the frame body on the wire
+	sized int    // c10Frame* class of body (0: not sized)
+	pad   string // where the filler went
 }
 
 type c10Call struct {
